@@ -313,7 +313,9 @@ fn arbitrary(rep: &Reporter, st: &CodecStats, thorough: bool) {
     st.arbitrary_accepted.fetch_add(acc, Ordering::Relaxed);
     token_bodies(rep, st, thorough);
     // type tags x structured bodies, with a wrong and with the correct checksum
-    let tags: [u32; 9] = [0, 1, 2, 3, 4, 5, 6, 255, u32::MAX];
+    // valid tags, unknown tags, and tags whose LOW byte is a valid kind while a
+    // higher byte is set (a decoder that narrows the tag would accept those)
+    let tags: [u32; 15] = [0, 1, 2, 3, 4, 5, 6, 255, u32::MAX, 0x100, 0x103, 0x0001_0005, 0x0100_0000, 0x0100_0003, 0xFFFF_FF02];
     let alpha: [u8; 4] = [0x00, 0x01, 0x02, 0xFF];
     let max_len = if thorough { 9 } else { 8 };
     let work: Vec<(u32, usize)> = tags.iter().flat_map(|t| (0..=max_len).map(move |l| (*t, l))).collect();
@@ -375,7 +377,7 @@ fn token_bodies(rep: &Reporter, st: &CodecStats, thorough: bool) {
         b"a".to_vec(),
         vec![0xC3], // first byte of a 2-byte UTF-8 sequence
     ];
-    let tags: [u32; 8] = [0, 1, 2, 3, 4, 5, 6, u32::MAX];
+    let tags: [u32; 12] = [0, 1, 2, 3, 4, 5, 6, u32::MAX, 0x100, 0x0001_0002, 0x0100_0004, 0xFFFF_FF00];
     let max_tokens = if thorough { 6 } else { 5 };
     let work: Vec<(u32, usize, usize)> =
         tags.iter().flat_map(|t| (0..=max_tokens).flat_map(move |l| (0..12usize).map(move |first| (*t, l, first)))).collect();
@@ -468,7 +470,7 @@ pub fn run(rep: &Reporter, thorough: bool) -> Value {
         "mutation_values_per_position": if thorough { "all 255" } else { "8 bit flips + 0x00, 0xFF, +1" },
         "arbitrary_inputs_decoded": st.arbitrary.load(Ordering::Relaxed),
         "arbitrary_inputs_accepted": st.arbitrary_accepted.load(Ordering::Relaxed),
-        "explanation": "bounded-exhaustive enumeration of the codec's input space: every record of a structured space (6 kinds x all Some/None combinations x boundary integers x payload lengths up to 64 KiB) is encoded by an independent encoder, decoded by the crate, re-encoded and compared; every proper prefix (all positions for records <= 512 bytes, first/last 64 and every 97th otherwise) must be UnexpectedEof; every single-byte substitution and every arbitrary input (all strings <= 2 bytes; 9 type tags x all bodies over {00,01,02,FF} up to the length bound, with wrong and correct checksum) must not panic and, if accepted, must re-encode to exactly the consumed bytes. 'states'/'transitions' = decoder executions (each on a distinct input).",
+        "explanation": "bounded-exhaustive enumeration of the codec's input space: every record of a structured space (6 kinds x all Some/None combinations x boundary integers x payload lengths up to 64 KiB) is encoded by an independent encoder, decoded by the crate, re-encoded and compared; every proper prefix (all positions for records <= 512 bytes, first/last 64 and every 97th otherwise) must be UnexpectedEof; every single-byte substitution and every arbitrary input (all strings <= 2 bytes; 15 type tags (valid, unknown, and valid-low-byte-with-high-bytes-set) x all bodies over {00,01,02,FF} up to the length bound, with wrong and correct checksum) must not panic and, if accepted, must re-encode to exactly the consumed bytes. 'states'/'transitions' = decoder executions (each on a distinct input).",
     })
 }
 
